@@ -1,5 +1,9 @@
 /* euler.spec.h -- contracts for euler_1d / euler_2d / euler_3d (properties C02, C07).
- * Oracle: the property statement (inviscid conservation laws applied to the documented fields). */
+ * Oracle: the property statement (inviscid conservation laws applied to the documented fields of
+ * doxygen/solutions/euler.page, eq. manufactured_1d / _2d / _3d).  The steady classes have no time terms:
+ * every field jet has _t == 0, so the d/dt parts of EULER_OPERATORS vanish identically.
+ * Gradient evaluators (C07): component i (1-based) of eval_g_phi is the partial derivative of the SAME jet that
+ * eval_exact_phi returns; an index outside 1..dim yields -1 and may only touch ghost_msg (printing). */
 #include "roy.h"
 
 #if defined(UNIT_euler_1d)
@@ -28,4 +32,102 @@ static Sc e1_q_rho_e(Sc x) { EULER1D_FIELDS; EULER_OPERATORS; return op_energy; 
 #define CONTRACT_euler_1d__eval_q_rho_1     E1REQ ENS_EQ(e1_q_rho(x)) FRAME()
 #define CONTRACT_euler_1d__eval_q_rho_u_1   E1REQ ENS_EQ(e1_q_rho_u(x)) FRAME()
 #define CONTRACT_euler_1d__eval_q_rho_e_1   E1REQ ENS_EQ(e1_q_rho_e(x)) FRAME()
+#endif
+
+/* selection of a gradient component: 1-based direction index, -1 outside 1..dim (C07) */
+static Sc grad_sel(int i, int dim, Sc gx, Sc gy, Sc gz)
+{
+  Sc g = -1;
+  if (i == 1 && dim >= 1) g = gx;
+  if (i == 2 && dim >= 2) g = gy;
+  if (i == 3 && dim >= 3) g = gz;
+  return g;
+}
+#define GRAD2(J, i) grad_sel(i, 2, J##_x, J##_y, J##_z)
+#define GRAD3(J, i) grad_sel(i, 3, J##_x, J##_y, J##_z)
+
+#if defined(UNIT_euler_2d)
+/* euler.page eq. manufactured_2d:
+ *   rho = rho_0 + rho_x sin(a_rhox pi x/L) + rho_y cos(a_rhoy pi y/L)
+ *   u   = u_0   + u_x   sin(a_ux   pi x/L) + u_y   cos(a_uy   pi y/L)
+ *   v   = v_0   + v_x   cos(a_vx   pi x/L) + v_y   sin(a_vy   pi y/L)
+ *   p   = p_0   + p_x   cos(a_px   pi x/L) + p_y   sin(a_py   pi y/L) */
+#define EULER2D_FIELDS \
+  Sc z = 0, t = 0; \
+  ROY_X(rx, JSIN, rho_x, a_rhox); ROY_Y(ry, JCOS, rho_y, a_rhoy); JSUM3(RHO, rho_0, rx, ry); \
+  ROY_X(ux, JSIN, u_x, a_ux);     ROY_Y(uy, JCOS, u_y, a_uy);     JSUM3(U, u_0, ux, uy); \
+  ROY_X(vx, JCOS, v_x, a_vx);     ROY_Y(vy, JSIN, v_y, a_vy);     JSUM3(V, v_0, vx, vy); \
+  ROY_X(px, JCOS, p_x, a_px);     ROY_Y(py, JSIN, p_y, a_py);     JSUM3(P, p_0, px, py); \
+  JCONST(W, 0)
+static Sc e2_exact_rho(Sc x, Sc y) { EULER2D_FIELDS; return RHO_v; }
+static Sc e2_exact_u(Sc x, Sc y) { EULER2D_FIELDS; return U_v; }
+static Sc e2_exact_v(Sc x, Sc y) { EULER2D_FIELDS; return V_v; }
+static Sc e2_exact_p(Sc x, Sc y) { EULER2D_FIELDS; return P_v; }
+static Sc e2_g_rho(Sc x, Sc y, int i) { EULER2D_FIELDS; return GRAD2(RHO, i); }
+static Sc e2_g_u(Sc x, Sc y, int i) { EULER2D_FIELDS; return GRAD2(U, i); }
+static Sc e2_g_v(Sc x, Sc y, int i) { EULER2D_FIELDS; return GRAD2(V, i); }
+static Sc e2_g_p(Sc x, Sc y, int i) { EULER2D_FIELDS; return GRAD2(P, i); }
+static Sc e2_q_rho(Sc x, Sc y) { EULER2D_FIELDS; EULER_OPERATORS; return op_mass; }
+static Sc e2_q_rho_u(Sc x, Sc y) { EULER2D_FIELDS; EULER_OPERATORS; return op_xmom; }
+static Sc e2_q_rho_v(Sc x, Sc y) { EULER2D_FIELDS; EULER_OPERATORS; return op_ymom; }
+static Sc e2_q_rho_e(Sc x, Sc y) { EULER2D_FIELDS; EULER_OPERATORS; return op_energy; }
+#define E2REQ REQ(VF_PI_OK)
+#define CONTRACT_euler_2d__eval_exact_rho_2 E2REQ ENS_EQ(e2_exact_rho(x, y)) FRAME()
+#define CONTRACT_euler_2d__eval_exact_u_2   E2REQ ENS_EQ(e2_exact_u(x, y)) FRAME()
+#define CONTRACT_euler_2d__eval_exact_v_2   E2REQ ENS_EQ(e2_exact_v(x, y)) FRAME()
+#define CONTRACT_euler_2d__eval_exact_p_2   E2REQ ENS_EQ(e2_exact_p(x, y)) FRAME()
+#define CONTRACT_euler_2d__eval_g_rho_3     E2REQ ENS_EQ(e2_g_rho(x, y, i)) FRAME(ghost_msg)
+#define CONTRACT_euler_2d__eval_g_u_3       E2REQ ENS_EQ(e2_g_u(x, y, i)) FRAME(ghost_msg)
+#define CONTRACT_euler_2d__eval_g_v_3       E2REQ ENS_EQ(e2_g_v(x, y, i)) FRAME(ghost_msg)
+#define CONTRACT_euler_2d__eval_g_p_3       E2REQ ENS_EQ(e2_g_p(x, y, i)) FRAME(ghost_msg)
+#define CONTRACT_euler_2d__eval_q_rho_2     E2REQ ENS_EQ(e2_q_rho(x, y)) FRAME()
+#define CONTRACT_euler_2d__eval_q_rho_u_2   E2REQ ENS_EQ(e2_q_rho_u(x, y)) FRAME()
+#define CONTRACT_euler_2d__eval_q_rho_v_2   E2REQ ENS_EQ(e2_q_rho_v(x, y)) FRAME()
+#define CONTRACT_euler_2d__eval_q_rho_e_2   E2REQ ENS_EQ(e2_q_rho_e(x, y)) FRAME()
+#endif
+
+#if defined(UNIT_euler_3d)
+/* euler.page eq. manufactured_3d:
+ *   rho = rho_0 + rho_x sin(x) + rho_y cos(y) + rho_z sin(z)
+ *   u   = u_0   + u_x   sin(x) + u_y   cos(y) + u_z   cos(z)
+ *   v   = v_0   + v_x   cos(x) + v_y   sin(y) + v_z   sin(z)
+ *   w   = w_0   + w_x   sin(x) + w_y   sin(y) + w_z   cos(z)
+ *   p   = p_0   + p_x   cos(x) + p_y   sin(y) + p_z   cos(z)      (argument of each: a_phi? pi ?/L) */
+#define E3_RHO ROY_X(rx, JSIN, rho_x, a_rhox); ROY_Y(ry, JCOS, rho_y, a_rhoy); ROY_Z(rz, JSIN, rho_z, a_rhoz); JSUM4(RHO, rho_0, rx, ry, rz)
+#define E3_U   ROY_X(ux, JSIN, u_x, a_ux);     ROY_Y(uy, JCOS, u_y, a_uy);     ROY_Z(uz, JCOS, u_z, a_uz);     JSUM4(U, u_0, ux, uy, uz)
+#define E3_V   ROY_X(vx, JCOS, v_x, a_vx);     ROY_Y(vy, JSIN, v_y, a_vy);     ROY_Z(vz, JSIN, v_z, a_vz);     JSUM4(V, v_0, vx, vy, vz)
+#define E3_W   ROY_X(wx, JSIN, w_x, a_wx);     ROY_Y(wy, JSIN, w_y, a_wy);     ROY_Z(wz, JCOS, w_z, a_wz);     JSUM4(W, w_0, wx, wy, wz)
+#define E3_P   ROY_X(px, JCOS, p_x, a_px);     ROY_Y(py, JSIN, p_y, a_py);     ROY_Z(pz, JCOS, p_z, a_pz);     JSUM4(P, p_0, px, py, pz)
+#define EULER3D_FIELDS Sc t = 0; E3_RHO; E3_U; E3_V; E3_W; E3_P
+static Sc e3_exact_rho(Sc x, Sc y, Sc z) { Sc t = 0; E3_RHO; return RHO_v; }
+static Sc e3_exact_u(Sc x, Sc y, Sc z) { Sc t = 0; E3_U; return U_v; }
+static Sc e3_exact_v(Sc x, Sc y, Sc z) { Sc t = 0; E3_V; return V_v; }
+static Sc e3_exact_w(Sc x, Sc y, Sc z) { Sc t = 0; E3_W; return W_v; }
+static Sc e3_exact_p(Sc x, Sc y, Sc z) { Sc t = 0; E3_P; return P_v; }
+static Sc e3_g_rho(Sc x, Sc y, Sc z, int i) { Sc t = 0; E3_RHO; return GRAD3(RHO, i); }
+static Sc e3_g_u(Sc x, Sc y, Sc z, int i) { Sc t = 0; E3_U; return GRAD3(U, i); }
+static Sc e3_g_v(Sc x, Sc y, Sc z, int i) { Sc t = 0; E3_V; return GRAD3(V, i); }
+static Sc e3_g_w(Sc x, Sc y, Sc z, int i) { Sc t = 0; E3_W; return GRAD3(W, i); }
+static Sc e3_g_p(Sc x, Sc y, Sc z, int i) { Sc t = 0; E3_P; return GRAD3(P, i); }
+static Sc e3_q_rho(Sc x, Sc y, Sc z) { EULER3D_FIELDS; EULER_OPERATORS; return op_mass; }
+static Sc e3_q_rho_u(Sc x, Sc y, Sc z) { EULER3D_FIELDS; EULER_OPERATORS; return op_xmom; }
+static Sc e3_q_rho_v(Sc x, Sc y, Sc z) { EULER3D_FIELDS; EULER_OPERATORS; return op_ymom; }
+static Sc e3_q_rho_w(Sc x, Sc y, Sc z) { EULER3D_FIELDS; EULER_OPERATORS; return op_zmom; }
+static Sc e3_q_rho_e(Sc x, Sc y, Sc z) { EULER3D_FIELDS; EULER_OPERATORS; return op_energy; }
+#define E3REQ REQ(VF_PI_OK)
+#define CONTRACT_euler_3d__eval_exact_rho_3 E3REQ ENS_EQ(e3_exact_rho(x, y, z)) FRAME()
+#define CONTRACT_euler_3d__eval_exact_u_3   E3REQ ENS_EQ(e3_exact_u(x, y, z)) FRAME()
+#define CONTRACT_euler_3d__eval_exact_v_3   E3REQ ENS_EQ(e3_exact_v(x, y, z)) FRAME()
+#define CONTRACT_euler_3d__eval_exact_w_3   E3REQ ENS_EQ(e3_exact_w(x, y, z)) FRAME()
+#define CONTRACT_euler_3d__eval_exact_p_3   E3REQ ENS_EQ(e3_exact_p(x, y, z)) FRAME()
+#define CONTRACT_euler_3d__eval_g_rho_4     E3REQ ENS_EQ(e3_g_rho(x, y, z, i)) FRAME(ghost_msg)
+#define CONTRACT_euler_3d__eval_g_u_4       E3REQ ENS_EQ(e3_g_u(x, y, z, i)) FRAME(ghost_msg)
+#define CONTRACT_euler_3d__eval_g_v_4       E3REQ ENS_EQ(e3_g_v(x, y, z, i)) FRAME(ghost_msg)
+#define CONTRACT_euler_3d__eval_g_w_4       E3REQ ENS_EQ(e3_g_w(x, y, z, i)) FRAME(ghost_msg)
+#define CONTRACT_euler_3d__eval_g_p_4       E3REQ ENS_EQ(e3_g_p(x, y, z, i)) FRAME(ghost_msg)
+#define CONTRACT_euler_3d__eval_q_rho_3     E3REQ ENS_EQ(e3_q_rho(x, y, z)) FRAME()
+#define CONTRACT_euler_3d__eval_q_rho_u_3   E3REQ ENS_EQ(e3_q_rho_u(x, y, z)) FRAME()
+#define CONTRACT_euler_3d__eval_q_rho_v_3   E3REQ ENS_EQ(e3_q_rho_v(x, y, z)) FRAME()
+#define CONTRACT_euler_3d__eval_q_rho_w_3   E3REQ ENS_EQ(e3_q_rho_w(x, y, z)) FRAME()
+#define CONTRACT_euler_3d__eval_q_rho_e_3   E3REQ ENS_EQ(e3_q_rho_e(x, y, z)) FRAME()
 #endif
